@@ -64,6 +64,15 @@ def cargo_env():
     return env
 
 
+def target_dir(stem) -> Path:
+    """One cargo target dir per checkout: cargo's freshness test is by mtime relative to the package root, so
+    two checkouts of the same package must never share a target dir (an older-but-different source tree would
+    be taken for up to date)."""
+    if str(REPO) == "/repo":
+        return CACHE / stem
+    return CACHE / ("%s-%s" % (stem, hashlib.sha256(str(REPO).encode()).hexdigest()[:10]))
+
+
 def build_subject(quiet=True) -> Path:
     """Build /repo (hooks on) if its sources changed; return the bin dir."""
     CACHE.mkdir(parents=True, exist_ok=True)
@@ -74,7 +83,7 @@ def build_subject(quiet=True) -> Path:
         if (bindir / "redo").exists() and (bindir / ".ok").exists():
             ensure_shims_unlocked()
             return bindir
-        tdir = CACHE / "target"
+        tdir = target_dir("target")
         cmd = ["cargo", "build", "--offline", "--manifest-path", str(REPO / "Cargo.toml"),
                "--features", "verif-hooks", "--bin", "redo", "--target-dir", str(tdir)]
         t0 = time.time()
@@ -154,7 +163,7 @@ def build_harness(quiet=True) -> Path:
         man = (gen / "Cargo.toml").read_text().replace("/repo", str(REPO))
         (gen / "Cargo.toml").write_text(man)
         shutil.copy2(REPO / "Cargo.lock", gen / "Cargo.lock")
-        tdir = CACHE / "target-harness"
+        tdir = target_dir("target-harness")
         cmd = ["cargo", "build", "--offline", "--release", "--manifest-path", str(gen / "Cargo.toml"),
                "--target-dir", str(tdir)]
         p = subprocess.run(cmd, env=cargo_env(), stdout=subprocess.PIPE, stderr=subprocess.STDOUT, text=True)
